@@ -88,6 +88,31 @@ def oracle(ctx, seeds=None):
         for k in idx:
             if abs(tot[k]) > 1e-11 * Fs:
                 res.fail('2d:%s' % ['periodic', 'walls', 'per-x-walls-y'][kind], "component %d integral changes by %r (nx=%d ny=%d)" % (k, tot[k], cfg['nx'], cfg['ny']), dict(cfg2d=cfg))
+    # ---- 2D operator with OPEN boundaries: the volume integral of the residual is the balance of the boundary-face fluxes
+    #      (x-faces of length dy, y-faces of length dx; face j*(nx+1)+i between cells i-1 and i of row j, y-faces after them)
+    for i in range(ctx.n(30, 500)):
+        cfg = cfg2d.rand_config2d(rng, smooth=True)
+        ok, b = impl.guarded(cfg2d.build2d, cfg)
+        if not ok:
+            continue
+        mod, msh, disc, f = b
+        ok, r = impl.guarded(lambda: [np.array(x, dtype=float).copy() for x in disc.rhs(f)])
+        if not ok or not all(np.all(np.isfinite(x)) for x in r):
+            res.count('skipped-inadmissible'); continue
+        nx, ny = cfg['nx'], cfg['ny']; dx, dy = msh.dx(), msh.dy()
+        res.case(('2d-open', nx, ny, cfg['flux'], cfg['scheme'][0], cfg['bc']['left']['type'], cfg['bc']['bottom']['type']))
+        vol = msh.vol(); fs = ny * (nx + 1)
+        comps = [(r[0], np.asarray(disc.flux[0], dtype=float)), (r[1][0], np.asarray(disc.flux[1], dtype=float)[0]),
+                 (r[1][1], np.asarray(disc.flux[1], dtype=float)[1]), (r[2], np.asarray(disc.flux[2], dtype=float))]
+        for k, (rk, Fk) in enumerate(comps):
+            left = sum(Fk[j * (nx + 1)] for j in range(ny)); right = sum(Fk[j * (nx + 1) + nx] for j in range(ny))
+            bottom = sum(Fk[fs + ii] for ii in range(nx)); top = sum(Fk[fs + ny * nx + ii] for ii in range(nx))
+            exp = (left - right) * dy + (bottom - top) * dx
+            sc = (float(np.sum(np.abs(Fk[:fs]))) * dy + float(np.sum(np.abs(Fk[fs:]))) * dx) + 1e-300
+            if abs(float(np.sum(vol * rk)) - exp) > 1e-11 * sc:
+                res.fail('2d:balance', "component %d: sum(vol*res) = %r, boundary flux balance = %r (nx=%d ny=%d dx=%r dy=%r, bc %r)" %
+                         (k, float(np.sum(vol * rk)), float(exp), nx, ny, dx, dy, {t: v['type'] for t, v in cfg['bc'].items()}), dict(cfg2d=cfg))
+                break
     # ---- solves: integrals constant for every integrator with one global time step
     for i in range(ctx.n(14, 200)):
         cfg = cfg1d.rand_config(rng, units=False, per=True, n=int(rng.integers(3, 9)), smooth=True,
@@ -109,6 +134,8 @@ def oracle(ctx, seeds=None):
         ok, out = impl.guarded(run)
         res.case(('solve', name, cfg['model']))
         if not ok:
+            if 'Singular matrix' in str(out) and name in IMPL:
+                res.count('skipped-singular-implicit-system'); continue       # rough data: the trajectory leaves the admissible set (see C14)
             res.fail('solve/%s:raised' % name, out, dict(cfg=cfg, integrator=name, cfl=cfl, nit=nit)); continue
         if out.isnan():
             res.count('skipped-nan'); continue
@@ -119,6 +146,29 @@ def oracle(ctx, seeds=None):
             tol = 1e-11 if name in EXPL else 1e-7
             if abs(i1[k] - i0[k]) > tol * sc:
                 res.fail('solve/%s:drift' % name, "eq %d integral %r -> %r after %d steps (cfl %r, %s)" % (k, i0[k], i1[k], nit, cfl, cfg['model']),
+                         dict(cfg=cfg, integrator=name, cfl=cfl, nit=nit))
+    # ---- implicit family on NON-UNIFORM periodic meshes, linear and nonlinear scalar laws (every quick run sees each integrator)
+    for name in IMPL:
+        for j in range(ctx.n(3, 20)):
+            model = ['conv', 'burgers', 'conv'][j % 3]
+            cfg = cfg1d.rand_config(rng, units=False, per=True, n=int(rng.integers(3, 9)), smooth=True, model=model,
+                                    meshkind=str(rng.choice(['refined', 'morphed', 'faces'])), scheme=cfg1d.rand_scheme(rng, ['extrapol1', 'extrapol2', 'extrapol3']))
+            if model == 'burgers':
+                cfg['prim'] = [[float(x) for x in 2.0 + 0.3 * rng.normal(size=cfg['n'])]]
+            ok, b = impl.guarded(cfg1d.build, cfg)
+            if not ok:
+                continue
+            mod, msh, disc, f = b
+            cfl = float(rng.choice([0.5, 2.0, 10.0])); nit = int(rng.integers(2, 8))
+            ok, out = impl.guarded(lambda: getattr(impl.integ, name)(msh, disc).solve(f, cfl, stop={'maxit': nit})[-1])
+            res.case(('solve-nonuniform', name, model, cfg['mesh']['kind']))
+            if not ok or out.isnan():
+                res.count('skipped-nan'); continue
+            vol = msh.vol()
+            i0 = float(np.sum(vol * f.data[0])); i1 = float(np.sum(vol * out.data[0]))
+            sc = float(np.sum(vol * np.abs(f.data[0]))) + float(np.sum(vol * np.abs(out.data[0] - f.data[0]))) + 1e-300
+            if abs(i1 - i0) > 1e-7 * sc:
+                res.fail('solve/%s:drift' % name, "integral %r -> %r after %d steps on a %s periodic mesh (cfl %r, %s, %r)" % (i0, i1, nit, cfg['mesh']['kind'], cfl, model, cfg['scheme']),
                          dict(cfg=cfg, integrator=name, cfl=cfl, nit=nit))
     return res
 
